@@ -246,7 +246,9 @@ func runV2(c *v2.Client, o *Op) (out Outcome) {
 		for _, ch := range o.Changes {
 			if ch.Create != nil {
 				gks, gad := v2KeySchema(ch.Create.Key)
-				in.AttributeDefinitions = append(in.AttributeDefinitions, gad...)
+				if !ch.Create.NoDefs {
+					in.AttributeDefinitions = append(in.AttributeDefinitions, gad...)
+				}
 				in.GlobalSecondaryIndexUpdates = append(in.GlobalSecondaryIndexUpdates, v2types.GlobalSecondaryIndexUpdate{Create: &v2types.CreateGlobalSecondaryIndexAction{
 					IndexName: strptr(ch.Create.Name), KeySchema: gks, Projection: &v2types.Projection{ProjectionType: v2types.ProjectionTypeAll}, ProvisionedThroughput: v2Throughput(ch.Create.TP)}})
 			} else {
